@@ -26,7 +26,7 @@ PROPS = {
     },
     "C04": {
         "rules": ["C04.R1", "C04.R2", "C04.R3", "C04.R4", "C04.R5", "C04.R6", "C08.R4", "C04.R7"],
-        "explanation": "Decides: exit status is tested (code == Some(0)) before an output is accepted; nothing is recorded for a failed execution (history written only under Ok(Ok(_)) of join, error types carry no history); cancel is forwarded on every failing path; a Cancel packet stops the dependent; one error per failed thread, none for cancelled ones; errors carry the failing path. Not decided: content correctness of independent rules (C01).",
+        "explanation": "Decides: exit status is tested (code == Some(0)) before an output is accepted; nothing is recorded for a failed execution (history written only under Ok(Ok(_)) of join, error types carry no history); cancel is forwarded on every failing path; a Cancel packet stops the dependent; one error per failed thread, none for cancelled ones; errors carry the failing path; CommandLineOutput.code / success are the process's own exit status, unaltered. Not decided: content correctness of independent rules (C01).",
     },
     "C05": {
         "rules": ["C05.R1", "C03.R2", "C03.R4", "C05.R3", "C04.R3", "C05.R5", "C12.R5", "C12.R6"],
@@ -42,7 +42,7 @@ PROPS = {
     },
     "C08": {
         "rules": ["C08.R1", "C08.R2", "C08.R3", "C08.R4", "C07.R1", "C18.R1", "C01.R10"],
-        "explanation": "Decides: there is no deleting primitive (System trait method set, no std::fs outside real.rs); every rename destination is a content-named cache entry or a path proven vacant (backed up / found absent) on every path through all callers; every create_file targets a ruler state file or a vacant path, writes only go to created files; every non-AlreadyCorrect verdict is preceded by displacement. Not decided: preservation of actual bytes on a real file system.",
+        "explanation": "Decides: there is no deleting primitive (System trait method set, no std::fs outside real.rs); every rename destination is a content-named cache entry or a path proven vacant (backed up / found absent) on every path through all callers; every create_file targets a ruler state file or a vacant path, writes only go to created files; every non-AlreadyCorrect verdict is preceded by displacement; the state stored for a path describes the file at that path and is stored into the kept object (a stale pair would file a back-up under another file's name, on top of a genuine entry). Not decided: preservation of actual bytes on a real file system.",
     },
     "C09": {
         "rules": ["C09.R1", "C09.R2", "C09.R3", "C09.R4", "C07.R3"],
@@ -53,8 +53,8 @@ PROPS = {
         "explanation": "Decides: clean backs up every existing target of every node (complete loops, no skipping path, errors returned); a missing target with a remembered hash is restored by rename from the entry named by that hash; downloaded files get their remembered permission; clean honours its goal. Not decided: end-to-end behaviour on a real file system.",
     },
     "C11": {
-        "rules": ["C11.R1", "C11.R2", "C11.R4", "C11.R5", "C04.R2", "C16.R2"],
-        "explanation": "Decides: user data moves only by single renames (no open+create copy); history written only after a successful join, the file-state table only after all joins; state files read back by a strict decoder must be replaced atomically (temp + rename). Not decided: the disk state at each individual crash point (fault enumeration).",
+        "rules": ["C11.R1", "C11.R2", "C11.R4", "C11.R5", "C04.R2", "C16.R2", "C01.R10", "C18.R1"],
+        "explanation": "Decides: user data moves only by single renames (no open+create copy); history written only after a successful join, the file-state table only after all joins; state files read back by a strict decoder must be replaced atomically (temp + rename); directory initialisation completes a partial creation (each create_dir guarded by the absence of that same path); an opened state file is always decoded (an empty one is damage, not `no state`); since a kill can leave the file-state table behind the history, every remembered state is validated against the file (exact-mtime shortcut) and every stored state describes the file at its path. Not decided: the disk state at each individual crash point (fault enumeration).",
     },
     "C12": {
         "rules": ["C12.R1", "C12.R2", "C12.R3", "C12.R4", "C12.R5", "C12.R6", "C12.R7"],
@@ -65,8 +65,8 @@ PROPS = {
         "explanation": "Injectivity of the hashed serialisation as a chain of structural facts (modulo SHA-256): all three fields reach the hash completely and in order; every element is followed by a newline and every section by a delimiter line ':' while the parser never stores a line that is empty or ':' and splits on newline; targets and sources are sorted (or checked sorted), the command is not; the identity names the history file and is the hash of the very strings the node carries. Not decided: nothing of the statement beyond hash collisions; end-to-end use of the identity is C01.",
     },
     "C14": {
-        "rules": ["C14.R1", "C14.R2", "C14.R3", "C14.R4", "C14.R5", "C14.R6"],
-        "explanation": "Decides: the parser's panic obligations (bounds checks guarded by length tests, counters); every state-machine error carries the file name and a line counter that starts at 1 and advances exactly once per line; the transition table read back from the code equals the documented one (4 modes x {empty, ':', other} and the end-of-input verdicts); bundle nodes are merged through a BTreeMap (canonical order, duplicates merged, kind clash rejected); the bundle layer's rejections exist and are guarded. Not decided: equality of the accepted language / yielded strings with the grammar for all texts.",
+        "rules": ["C14.R1", "C14.R2", "C14.R3", "C14.R4", "C14.R5", "C14.R6", "C14.R7"],
+        "explanation": "Decides: the parser's panic obligations (bounds checks guarded by length tests, counters); every state-machine error carries the file name and a line counter that starts at 1 and advances exactly once per line; the transition table read back from the code equals the documented one (4 modes x {empty, ':', other} and the end-of-input verdicts); bundle nodes are merged through a BTreeMap (canonical order, duplicates merged, kind clash rejected); the bundle layer's rejections exist and are guarded; indentation is measured in tabs only (level/text never derive from a whitespace-general operation); no byte offset into a string derives from a character count. Not decided: equality of the accepted language / yielded strings with the grammar for all texts.",
     },
     "C15": {
         "rules": ["C15.R1", "C15.R2", "C15.R3", "C15.R4", "C15.R5"],
@@ -74,23 +74,23 @@ PROPS = {
     },
     "C16": {
         "rules": ["C16.R1", "C16.R2", "C16.R3", "C16.R4", "C16.R5"],
-        "explanation": "Decides: writer and reader of each state file instantiate bincode with the same type through the default entry points; a decode error is an error all the way up to the entry points (never a default value); no panic-capable local site is reachable from the state readers. Not decided: bincode's behaviour on arbitrary, truncated or bit-flipped bytes (dependency semantics).",
+        "explanation": "Decides: writer and reader of each state file instantiate bincode with the same type through the default entry points; a decode error is an error all the way up to the entry points (never a default value); no panic-capable local site is reachable from the state readers; the bytes decoded are the file's; the derived encoders write every field unconditionally and the derived decoders default none. Not decided: bincode's behaviour on arbitrary, truncated or bit-flipped bytes (dependency semantics).",
     },
     "C17": {
-        "rules": ["C17.R1", "C17.R2", "C17.R3", "C04.R2", "C07.R5"],
-        "explanation": "Decides: insert never overwrites (only on the miss edge of the same key) and maps Contradiction to Err; every successful re-execution passes through insert; exactly the indices whose tickets differ are reported and mapped to paths[i] of the refreshed blob; the earlier record cannot leave through an error. Not decided: whether a given history forces re-execution.",
+        "rules": ["C17.R1", "C17.R2", "C17.R3", "C04.R2", "C07.R5", "C18.R1"],
+        "explanation": "Decides: insert never overwrites (only on the miss edge of the same key) and maps Contradiction to Err; every successful re-execution passes through insert; exactly the indices whose tickets differ are reported and mapped to paths[i] of the refreshed blob; the earlier record cannot leave through an error; the hashes compared after a re-execution are those of the files just written (the refresh reuses a remembered hash only under exact mtime equality); the history is not rooted in the cache directory. Not decided: whether a given history forces re-execution.",
     },
     "C18": {
-        "rules": ["C18.R1", "C18.R2", "C01.R6", "C01.R9", "C01.R10", "C11.R2"],
-        "explanation": "Decides: the shortcut is taken only under exact equality of the file's own mtime with the remembered one; the table is refreshed whenever a command ran. Not decided: equality of paired runs over all histories.",
+        "rules": ["C18.R1", "C18.R2", "C18.R3", "C01.R6", "C01.R9", "C01.R10", "C11.R2"],
+        "explanation": "Decides: the shortcut is taken only under exact equality of the file's own mtime with the remembered one; the table is refreshed whenever a command ran; a restored file is never hashed through the shortcut with the state of the file it replaced, and always gets a fresh stored state (unconditionally, not only when the mtimes differ). Not decided: equality of paired runs over all histories.",
     },
     "C19": {
-        "rules": ["C19.R1", "C19.R2", "C19.R3", "C19.R4", "C19.R5", "C07.R2", "C15.R4"],
-        "explanation": "Decides: both endpoints decode every request name as a ticket before any file-system access and answer 404 otherwise; the only file-system entry points reachable from a request take a Ticket and build `<ruler dir>/<43 alphanumerics>`; 200 only on the success edges of lookup and read, every lookup failure is 404, bodies are the opened entry's bytes / the newline-joined hashes of the looked-up vector; request handlers' panic obligations. Not decided: that served bytes equal the requested content at runtime (C07); warp's routing.",
+        "rules": ["C19.R1", "C19.R2", "C19.R3", "C19.R4", "C19.R5", "C07.R2", "C15.R4", "C01.R4"],
+        "explanation": "Decides: both endpoints decode every request name as a ticket before any file-system access and answer 404 otherwise; the only file-system entry points reachable from a request take a Ticket and build `<ruler dir>/<43 alphanumerics>`; 200 only on the success edges of lookup and read, every lookup failure is 404, bodies are the opened entry's bytes / the newline-joined hashes of the looked-up vector; request handlers' panic obligations; the lookup key type compares all 32 bytes (derived equality on Ticket). Not decided: that served bytes equal the requested content at runtime (C07); warp's routing.",
     },
     "C20": {
-        "rules": ["C20.R1", "C20.R2", "C20.R3", "C20.R4", "C04.R5", "C02.R2"],
-        "explanation": "Decides: each status variant is constructed only where its cause happened (command executed / restore done / download done / effect-free path); status lines are printed only under Ok(Ok(_)) of join; one error per failed rule. Not decided: nothing structural beyond the listed rules.",
+        "rules": ["C20.R1", "C20.R2", "C20.R3", "C20.R4", "C04.R5", "C02.R2", "C04.R1"],
+        "explanation": "Decides: each status variant is constructed only where its cause happened (command executed / restore done / download done / effect-free path); status lines are printed only under Ok(Ok(_)) of join; one error per failed rule; CommandExecuted is only built from outputs whose every command line passed the exit-status test. Not decided: nothing structural beyond the listed rules.",
     },
 }
 
